@@ -146,6 +146,38 @@ MUTANTS = {
 """,
         "then/else bodies exchanged when the then body has more than three nodes",
     ),
+    # --- refactorings of the internals the harness observes, combined with a real breakage
+    "R1-build_main-renamed+optional-dropped": (
+        [
+            ("src/spox/_build.py", "    def build_main(self) -> BuildResult:", "    def run_build(self) -> BuildResult:"),
+            ("src/spox/_graph.py", "_build.Builder(self).build_main()", "_build.Builder(self).run_build()"),
+            ("src/spox/_node.py",
+             """        input_names = [scope.var[var] if var is not None else "" for var in self.inputs]
+""",
+             """        input_names = [scope.var[var] for var in self.inputs if var is not None]
+"""),
+        ],
+        "Builder.build_main renamed to run_build (harness hook gone) AND inner optional inputs dropped",
+    ),
+    "R2-name_of-renamed+results-miswired": (
+        [
+            ("src/spox/_scope.py", "name_of", "names"),
+            ("src/spox/_graph.py", "name_of", "names"),
+            ("src/spox/_internal_op.py",
+             """                    [scope.var[self.inputs.inputs[i]]],
+""",
+             """                    [scope.var[self.inputs.inputs[i if i < 2 else len(self.inputs.inputs) + 1 - i]]],
+"""),
+        ],
+        "ScopeSpace.name_of renamed to names everywhere (witness unreadable) AND results 2.. reversed",
+    ),
+    "R3-build_main-renamed-only": (
+        [
+            ("src/spox/_build.py", "    def build_main(self) -> BuildResult:", "    def run_build(self) -> BuildResult:"),
+            ("src/spox/_graph.py", "_build.Builder(self).build_main()", "_build.Builder(self).run_build()"),
+        ],
+        "harmless refactoring only: Builder.build_main renamed (expected: no-failing-input-found, exit 1, never exit 2)",
+    ),
 }
 
 
@@ -163,14 +195,21 @@ def main():
     env = dict(os.environ, SPOX_REPO=str(REPO))
     rows = []
     for name in names:
-        f, old, new, desc = MUTANTS[name]
+        spec = MUTANTS[name]
+        parts = spec[0] if isinstance(spec[0], list) else [spec[:3]]
         clean()
-        p = REPO / f
-        src = p.read_text()
-        if src.count(old) != 1:
+        applies = True
+        for f, old, new in parts:
+            p = REPO / f
+            src = p.read_text()
+            if old not in src:
+                applies = False
+                break
+            p.write_text(src.replace(old, new))
+        if not applies:
+            clean()
             rows.append((name, "PATCH DOES NOT APPLY", "", "", ""))
             continue
-        p.write_text(src.replace(old, new))
         try:
             r = sh(f"cd {V} && ./check C01 quick", env=env)
             out = r.stdout + r.stderr
